@@ -178,7 +178,11 @@ def _check_case(case):
             out.fail('R3:ak1-version', 'AK103 %r, GS08 %r' % (ag['ak1'][2], sg['gs'][7]))
         want = [[wr(x) for x in s['st'][:2]] for s in sg['sets']]
         got = [s['ak2'][:2] for s in ag['sets']]
-        if got != want:
+
+        def _t(rows):
+            # an empty control number at the end of AK2 is not written at all (trailing empty elements are trimmed)
+            return [[x for x in r_] if not (len(r_) > 1 and r_[-1] == '') else list(r_[:-1]) for r_ in rows]
+        if _t(got) != _t(want):
             out.fail('R3:ak2-sequence', 'group #%d: AK2 %r, input sets %r' % (gi, got, want))
             continue
         accepted = 0
